@@ -420,6 +420,14 @@ def stage_schema(ctx, pq, w):
         if "ok" not in res:
             ctx.fail({"component": "schema", "kind": kind, "negative": True}, case, "schema functions raised: %r" % (res,))
             continue
+        types = {m[0]: m[2] for m in mut if m[1] == "repetition_type"}
+        for leaf, r in zip(leaves, res["ok"]):
+            if len(types) >= 3:
+                # the level functions of schema.py agree with their model on every combination of repetition types
+                pth = [types[1], types[2], types[3] if leaf["which"] != "value" else types[4]]
+                m = pq.call("sch", pth)
+                ctx.correspondence("sch_max_rep/sch_max_def/sch_is_required ~ schema.py SchemaHelper", {**case, "leaf": leaf["which"]},
+                                   [int(x) for x in m], [r["max_rep"], r["max_def"], int(r["is_required"]), int(r["null"])])
         for r in res["ok"]:
             accepted = (kind == "list" and r["is_list_like"]) or (kind == "map" and r["is_map_like"])
             if accepted and must_reject:
@@ -982,6 +990,10 @@ def stage_files(ctx, pq, w):
             col = dict(name=name, kind=kind, row_opt=ro, elem_opt=eo, ptype=rng.choice(ptypes + ["boolean", "float"]))
             if kind == "map":
                 col["key_ptype"] = rng.choice(["utf8", "int64", "int32"])
+                if rng.random() < 0.3:
+                    col["group_name"] = "map"
+            elif rng.random() < 0.3:
+                col["group_name"], col["elem_name"] = rng.choice([("bag", "array_element"), ("array", "item"), ("list", "item")])
             cols.append(col)
         if rng.random() < 0.35:
             # an ordinary required column before / between / after the nested ones
